@@ -1,6 +1,7 @@
 import Driver.Common
 import EgVerif.Spec.RateLimiter
 import EgVerif.Spec.RateLimiterExt
+import EgVerif.Model.URLRule
 open Lean EgVerif.RateLimiter
 
 namespace Driver.C09
@@ -153,11 +154,30 @@ def filterStep (s : FState) (stepIn obs : Json) : Except String FState := do
       return ({ s with agree := false, dead := true }).fail "filter:handle-panic" panic
     let msJ ← getArr obs "matches"
     let ms ← msJ.toList.mapM (·.getBool?)
+    -- pkg/util/urlrule: what the model of `URLRule.Match` (after `Init`) and its declarative reading say, with
+    -- the standard library's regexp answers as oracle
+    let boolsOf (k : String) : List Bool := match obs.getObjVal? k with
+      | .ok (.arr a) => a.toList.map (fun j => j.getBool?.toOption.getD false) | _ => []
+    let reOra := boolsOf "reOra"
+    let empties := boolsOf "empties"
+    let method := optStr obs "method"
+    let path := optStr obs "path"
+    let rules : List (EgVerif.URLRule.Rule × Bool) := (g.spec.urls.zipIdx).map fun (u, k) =>
+      (({ methods := u.methods, url := { exact := u.exact, pfx := u.pfx, regex := u.regex, empty := empties.getD k false },
+          policyRef := u.policyRef } : EgVerif.URLRule.Rule), reOra.getD k false)
+    let msModel := rules.map fun (r, o) => r.inited.matches (fun _ _ => o) method path
+    let msSpec := rules.map fun (r, o) => r.spec (fun _ _ => o) method path
+    let haveOracle := reOra.length == g.spec.urls.length && method != ""
     let result := optStr obs "result"
     let status := (optInt obs "status").toNat
     let got ← parseLims obs
     let timing := s.lastLims.any (fun l => l.id != 0 && l.P < hourNs)
     let mut s1 := s
+    if haveOracle then
+      unless msModel == ms do
+        s1 := { s1 with agree := false, note := s!"urlrule model {msModel} vs Match {ms} for {method} {path}" }
+      unless msSpec == ms do
+        s1 := s1.fail "filter:urlrule-match-wrong" s!"rules should match {msSpec} but Match answered {ms} for {method} '{path}'"
     match handle (fun _ => 0) ms g.rls s.heap with
     | none => s1 := { s1 with agree := false, note := "model: nil limiter" }
     | some (h', out) =>
